@@ -468,7 +468,7 @@ fn get_summary_link(
     reduced_link_files: &HashMap<String, LinkMetadata>,
     name: &str,
 ) -> Result<Metablock> {
-    let builder = LinkMetadataBuilder::new();
+    let builder = LinkMetadataBuilder::new().name(name.to_string());
     let link_metadata = if layout.steps.is_empty() {
         builder.build()?
     } else {
